@@ -285,10 +285,18 @@ Section Example.
     | S fi' =>
         match t_def t with
         | TDComposite fs =>
-            let! p := lift (path_omit_generics id) in
-            let! u := lift (has_unused_type_params t) in
-            let! f := fields_example rec fs u in
-            mret (p ++ f)
+            (* F14 repair: [Cow<T>] is exemplified as an example of [T] *)
+            match (match path_ident (t_path t), t_params t with
+                   | Some "Cow", p0 :: _ => tp_ty p0
+                   | _, _ => None
+                   end) with
+            | Some inner => rec inner
+            | None =>
+                let! p := lift (path_omit_generics id) in
+                let! u := lift (has_unused_type_params t) in
+                let! f := fields_example rec fs u in
+                mret (p ++ f)
+            end
         | TDVariant vs =>
             let! p := lift (path_omit_generics id) in
             let! o := mdraw (choose vs) in
